@@ -581,47 +581,77 @@ func c13AfterAdditions(t *testing.T, rec *stats.Rec, cli string) {
 	if ls := g.OcspResponseLints().Lints(); len(ls) > 0 {
 		someOCSP = ls[0].Name
 	}
-	good := lint.Profile{Name: "verif_profile_good", Description: "harness", LintNames: []string{"e_ca_country_name_missing", someCRL, someOCSP, lateName(0), lateName(1), lateName(2)}}
-	badp := lint.Profile{Name: "verif_profile_bad", Description: "harness", LintNames: []string{"e_ca_country_name_missing", "e_verif_no_such_lint"}}
-	onlyBad := lint.Profile{Name: "verif_profile_only_bad", Description: "harness", LintNames: []string{"e_verif_no_such_lint"}}
-	for _, p := range []lint.Profile{good, badp, onlyBad} {
-		lint.RegisterProfile(p)
-		rec.Eval()
-		rec.Class("runtime_profile")
-		c := c13Case{What: "runtime-profile", Token: p.Name}
-		got, ok := lint.GetProfile(p.Name)
-		if !ok {
-			bad("profile-not-found|"+p.Name, "GetProfile does not find a registered profile", c)
-			continue
-		}
-		if !reflect.DeepEqual(got.LintNames, p.LintNames) {
-			bad("profile-names-changed|"+p.Name, fmt.Sprintf("registered with %v, GetProfile returns %v", p.LintNames, got.LintNames), c)
-		}
-		listed := false
-		for _, ap := range lint.AllProfiles() {
-			if ap.Name == p.Name && reflect.DeepEqual(ap.LintNames, p.LintNames) {
-				listed = true
+	// what was registered is kept apart from what is handed to the library (a profile's name list is a slice: whoever
+	// reorders or trims it in place would otherwise rewrite the expectation too). Orders: unsorted on purpose; one
+	// profile repeats names. Every profile is fetched, listed and used three times over.
+	type spec struct {
+		name  string
+		want  []string
+		known bool
+	}
+	specs := []spec{
+		{"verif_profile_good", []string{lateName(1), "e_ca_country_name_missing", someCRL, someOCSP, lateName(0), lateName(2)}, true},
+		{"verif_profile_repeats", []string{"e_subj_contains_html_entities", "e_ca_country_name_missing", "e_subj_contains_html_entities", someCRL, "e_ca_country_name_missing", "e_ca_country_name_missing"}, true},
+		{"verif_profile_reverse_order", reverseOrder(g.Names(), 7), true},
+		{"verif_profile_bad", []string{"e_ca_country_name_missing", "e_verif_no_such_lint"}, false},
+		{"verif_profile_only_bad", []string{"e_verif_no_such_lint"}, false},
+	}
+	for _, sp := range specs {
+		lint.RegisterProfile(lint.Profile{Name: sp.name, Description: "harness", LintNames: append([]string{}, sp.want...)})
+	}
+	uniq := func(a []string) []string {
+		m := map[string]bool{}
+		var out []string
+		for _, x := range a {
+			if !m[x] {
+				m[x] = true
+				out = append(out, x)
 			}
 		}
-		if !listed {
-			bad("profile-not-listed|"+p.Name, "AllProfiles does not list the registered profile with its names", c)
-		}
-		var opts lint.FilterOptions
-		opts.AddProfile(got)
-		r, err := g.Filter(opts)
-		if p.Name == "verif_profile_good" {
-			if err != nil {
-				bad("profile-rejected|"+p.Name, "a profile of listed lints is rejected: "+err.Error(), c)
-			} else if !reflect.DeepEqual(sortedCopy(r.Names()), sortedCopy(p.LintNames)) {
-				bad("profile-selection|"+p.Name, fmt.Sprintf("profile %v selects %v", p.LintNames, r.Names()), c)
+		sort.Strings(out)
+		return out
+	}
+	for use := 0; use < 3; use++ {
+		for _, sp := range specs {
+			rec.Eval()
+			rec.Class("runtime_profile")
+			c := c13Case{What: "runtime-profile", Token: fmt.Sprintf("%s (use %d)", sp.name, use+1)}
+			got, ok := lint.GetProfile(sp.name)
+			if !ok {
+				bad("profile-not-found|"+sp.name, "GetProfile does not find a registered profile", c)
+				continue
 			}
-		} else if err == nil {
-			bad("unknown-name-accepted|runtime-profile", fmt.Sprintf("profile %s names a lint that does not exist, yet Filter accepts it (%d lints selected)", p.Name, len(r.Names())), c)
-		}
-		if cli != "" && p.Name != "verif_profile_good" {
-			_ = cli // profiles registered in this process are unknown to the separately built binary
+			if !reflect.DeepEqual(got.LintNames, sp.want) {
+				bad("profile-names-changed|"+sp.name, fmt.Sprintf("registered with %q, GetProfile returns %q at use %d", sp.want, got.LintNames, use+1), c)
+				continue
+			}
+			listed := false
+			for _, ap := range lint.AllProfiles() {
+				if ap.Name == sp.name && reflect.DeepEqual(ap.LintNames, sp.want) {
+					listed = true
+				}
+			}
+			if !listed {
+				bad("profile-not-listed|"+sp.name, "AllProfiles does not list the registered profile with its names", c)
+			}
+			var opts lint.FilterOptions
+			if use == 2 {
+				opts.IncludeNames = []string{"e_ca_country_name_missing"} // the profile joins names that are there already
+			}
+			opts.AddProfile(got)
+			r, err := g.Filter(opts)
+			if sp.known {
+				if err != nil {
+					bad("profile-rejected|"+sp.name, fmt.Sprintf("a profile of listed lints is rejected at use %d: %v", use+1, err), c)
+				} else if w := uniq(append(append([]string{}, sp.want...), opts.IncludeNames[:b2i(use == 2)]...)); !reflect.DeepEqual(sortedCopy(r.Names()), w) {
+					bad("profile-selection|"+sp.name, fmt.Sprintf("profile %q selects %q at use %d", sp.want, r.Names(), use+1), c)
+				}
+			} else if err == nil {
+				bad("unknown-name-accepted|runtime-profile", fmt.Sprintf("profile %s names a lint that does not exist, yet Filter accepts it (%d lints selected)", sp.name, len(r.Names())), c)
+			}
 		}
 	}
+	_ = cli // profiles registered in this process are unknown to the separately built binary
 }
 
 // the source constants of v3/lint/source.go (harvested for C12; the listing here is
@@ -658,4 +688,20 @@ func init() {
 		}
 		return judgeC13(rec, c, cli)
 	})
+}
+
+func b2i(b bool) int {
+	if b {
+		return 1
+	}
+	return 0
+}
+
+// reverseOrder: every step-th name, last first.
+func reverseOrder(names []string, step int) []string {
+	var out []string
+	for i := len(names) - 1; i >= 0; i -= step {
+		out = append(out, names[i])
+	}
+	return out
 }
